@@ -581,6 +581,7 @@ class C18(Check):
         facts = None
         pinbuf, pinfacts, pinstart = {}, None, None
         seedbuf = {}
+        partial_seeds = []
         shape = []
         first_destructive = None
         onboard_pins, change_pins, unlock_pins, seeds_sent = [], [], [], []
@@ -620,6 +621,15 @@ class C18(Check):
         for e in w.log:
             if e[0] == "open":
                 facts = fresh()
+                # a transfer belongs to ONE connection: on a new connection the tool starts over
+                # (and may re-check the device first); what was begun before is remembered only
+                # to see that a new attempt does not send the same seed again
+                if seedbuf:
+                    if dev.lost is None:
+                        V("onboarding-precondition", "SEED:without-WIPE", {"seed_bytes": len(seedbuf)},
+                          {"seed_followed_by": "PIN and WIPE"})
+                    partial_seeds.append(dict(seedbuf))
+                seedbuf, pinbuf, pinfacts, pinstart = {}, {}, None, None
                 continue
             if e[0] != "x":
                 continue
@@ -708,6 +718,18 @@ class C18(Check):
             if seed is None or seed not in o["seed_pool"]:
                 V("seed", "not-from-random-source", {"seed": seed, "indices": sorted(sb)},
                   {"seed_within": o["seed_pool"].hex()})
+            # every attempt draws afresh: the bytes an interrupted attempt had already sent are
+            # not sent again (judged when at least 4 bytes overlap)
+            for ps in partial_seeds:
+                common = [i for i in ps if i in sb]
+                if len(common) >= 4 and all(ps[i][-1] == sb[i][-1] for i in common):
+                    V("seed", "reused-by-second-attempt", {"bytes_in_common": len(common)},
+                      {"second_attempt": "a fresh draw from the random source"})
+        for i, sb in enumerate(s2 for s2, _ in seeds_sent):
+            for sb2, _ in seeds_sent[:i]:
+                if sb == sb2:
+                    V("seed", "reused-by-second-attempt", {"attempts": len(seeds_sent)},
+                      {"second_attempt": "a fresh draw from the random source"})
         # ---- PIN policy -------------------------------------------------------------
         if not anypin:
             for p in onboard_pins:
